@@ -284,7 +284,15 @@ def _alias_aware(ctx: Ctx, f: FunctionInfo, test: ast.AST) -> bool:
     return False
 
 
-def _unfold_tainted(f: FunctionInfo) -> Set[str]:
+def _bypass_ok(ctx: Ctx, f: FunctionInfo, cfg, node: ast.AST) -> bool:
+    """the node is reached only for a Sid that is no search (no '*', ',', '>', '**' ...: Sid.is_search() is false) and that
+    the extension unfolder leaves unchanged"""
+    alias = any(lab == "true" and _alias_aware(ctx, f, t) for t, lab in ctx.ef._dominating_tests(cfg, node))
+    concrete = any((not truth) and (txt.endswith(".is_search()") or "search_symbols" in txt) for txt, truth in facts_at(ctx, f, node))
+    return alias and concrete
+
+
+def _unfold_tainted(f: FunctionInfo, source: str = "unfold_search") -> Set[str]:
     """local names that hold (containers of) elements of an unfold_search(...) result; flow-insensitive closure
     over assignments, loop targets and container insertions"""
     tainted: Set[str] = set()
@@ -298,7 +306,7 @@ def _unfold_tainted(f: FunctionInfo) -> Set[str]:
         for n in own_nodes(f.node):
             new: Set[str] = set()
             if isinstance(n, (ast.Assign, ast.AnnAssign)) and getattr(n, "value", None) is not None:
-                src_unfold = any(isinstance(x, ast.Call) and (dotted(x.func) or "").split(".")[-1] == "unfold_search" for x in ast.walk(n.value))
+                src_unfold = any(isinstance(x, ast.Call) and (dotted(x.func) or "").split(".")[-1] == source for x in ast.walk(n.value))
                 if src_unfold or names(n.value) & tainted:
                     ts = n.targets if isinstance(n, ast.Assign) else [n.target]
                     for t in ts:
@@ -387,11 +395,12 @@ def rule_unfoldall(ctx: Ctx) -> RuleResult:
                 {x.id for x in ast.walk(arg) if isinstance(x, ast.Name)} & _unfold_tainted(f))
             # hand-made lists that flow into the argument next to (or instead of) the unfolded ones
             handmade = _handmade_sources(f, arg)
-            bad_hand = [h for h in handmade if not any(lab == "true" and _alias_aware(ctx, f, t) for t, lab in ctx.ef._dominating_tests(cfg, h))]
+            bad_hand = [h for h in handmade if not _bypass_ok(ctx, f, cfg, h)]
             if from_unfold and bad_hand:
                 res.violation([f.qualname, c.func.attr, "bypass"],
-                              f"{f.short}: `{norm(bad_hand[0])[:60]}` reaches {c.func.attr} without unfolding and without checking for an "
-                              f"extension alias: a concrete Sid ending in an alias is searched literally here while other finders expand it",
+                              f"{f.short}: `{norm(bad_hand[0])[:60]}` reaches {c.func.attr} without unfolding, and not only for Sids that are "
+                              f"no search (not is_search()) and carry no extension alias: a concrete Sid ending in an alias is searched "
+                              f"literally here while other finders expand it",
                               f.relpath, bad_hand[0].lineno, site=site)
                 continue
             from_param = any(a.kind == "param" and a.text in ("search_sids", "searches") for a in deps) and f.name in ("do_find", "do_get")
@@ -399,15 +408,31 @@ def rule_unfoldall(ctx: Ctx) -> RuleResult:
                 res.ok(site, "argument comes from unfold_search" if from_unfold else "delegation of an already unfolded list")
                 continue
             # a hand-made list: only acceptable under an alias-aware bypass test
-            tests = ctx.ef._dominating_tests(cfg, c)
-            if any(lab == "true" and _alias_aware(ctx, f, t) for t, lab in tests):
-                res.ok(site, "bypass of unfold_search is taken only when the extension unfolder leaves the Sid unchanged")
+            if _bypass_ok(ctx, f, cfg, c):
+                res.ok(site, "bypass of unfold_search is taken only for a Sid that is no search and that the extension unfolder leaves unchanged")
             else:
                 res.violation([f.qualname, c.func.attr, "bypass"],
-                              f"{f.short} hands `{norm(arg)}` to {c.func.attr} without unfolding it and without checking for an extension "
-                              f"alias: a concrete Sid ending in an alias is searched literally here while other finders expand it",
+                              f"{f.short} hands `{norm(arg)}` to {c.func.attr} without unfolding it, and not only for Sids that are no search "
+                              f"(not is_search()) and carry no extension alias: a '*' is then matched without the narrowing of the unfolded "
+                              f"typed searches, an alias is searched literally, while other finders expand both",
                               f.relpath, c.lineno, site=site)
     res.floor(n, 6, "do_find / do_get call sites")
+    # the unfolding used for searching is the plain one: no test-only flag, no alteration of the expression
+    m = 0
+    for f in p.iter_functions(kinds=("library",)):
+        if f.module.name in ("spil.sid.read.finders.find_cache", "spil.sid.read.tools"):
+            continue
+        for c in own_nodes(f.node):
+            if isinstance(c, ast.Call) and (dotted(c.func) or "").split(".")[-1] == "unfold_search":
+                m += 1
+                extra = [k.arg for k in c.keywords if k.arg in ("do_uniquify", "do_extrapolate")] + (["<positional flag>"] if len(c.args) > 1 else [])
+                if extra:
+                    res.violation([f.qualname, "unfold_search flags", ",".join(extra)],
+                                  f"{f.short} unfolds the search with {extra}: do_uniquify drops typed searches that share a string (other types "
+                                  f"are never searched), do_extrapolate adds parent types", f.relpath, c.lineno)
+                else:
+                    res.ok(f"{f.qualname}: `{norm(c)[:50]}`", "plain unfolding")
+    res.floor(m, 3, "unfold_search call sites in finders / getters")
     return res
 
 
@@ -1023,6 +1048,15 @@ def rule_finderid(ctx: Ctx) -> RuleResult:
             miss += [t for t, lab in tests if lab == "true" and isinstance(t, ast.Compare) and isinstance(t.ops[0], (ast.Is, ast.NotIn))
                      and any(isinstance(x, ast.Name) and x.id in f.module.bindings for x in ast.walk(t))]
             if miss:
+                # built once for the whole process: it may not depend on the arguments of the call that happens to be first
+                flow = flow_of(f.node)
+                at = cfg.node_of(c)
+                pdeps = sorted({a.text for a in flow.depends(c, at.id if at else None) if a.kind == "param"})
+                if pdeps:
+                    res.violation([q, norm(c.func), "built once from the first call's arguments"],
+                                  f"{q} builds `{norm(c)}` once (under `{norm(miss[0])}`) from its argument(s) {pdeps}: whatever the first "
+                                  f"call in the process passed decides what every later call searches", f.relpath, c.lineno, site=site)
+                    continue
                 res.ok(site, f"constructed once, under the miss test `{norm(miss[0])}` on a module-level table")
             elif r.cls.qualname.endswith("NextGetter"):
                 res.ok(site, "attribute getter: stateless, not used for grouping", nontrivial=False)
@@ -1030,4 +1064,97 @@ def rule_finderid(ctx: Ctx) -> RuleResult:
                 res.violation([q, norm(c), "fresh instance"], f"{q} builds `{norm(c)}` on every call: FindInAll / GetFromAll group searches by "
                                                               f"instance, so nothing is ever grouped", f.relpath, c.lineno, site=site)
         res.floor(n, 1, f"Finder/Getter constructions in {q}")
+    return res
+
+
+# ------------------------------------------------------------------------------------------------
+def rule_alltypes(ctx: Ctx) -> RuleResult:
+    """simple_typing answers with every type whose template matches the (search) string: the only returns that do not
+    come out of the sid_to_dicts loop are the 'root cannot be typed' one and the empty-result fallback (C07: a search
+    denotes all the typed searches its syntax matches, not the first)"""
+    res = RuleResult("R-ALLTYPES")
+    f = ctx.p.function("spil.sid.core.utils.simple_typing")
+    from ..shape import expanded, fact_nodes_at
+
+    f = expanded(ctx, f)
+    flow = flow_of(f.node)
+    cfg = cfg_of(f.node)
+    all_calls = [n for n in own_nodes(f.node) if isinstance(n, ast.Call) and (dotted(n.func) or "").split(".")[-1] == "sid_to_dicts"]
+    if not all_calls:
+        res.violation([f.qualname, "all matching templates"], "simple_typing no longer asks sid_to_dicts for every matching template: a search "
+                                                              "string is typed with one type only", f.relpath, f.node.lineno)
+        return res
+    call_node = cfg.node_of(all_calls[0])
+    rets = _rets(f)
+    res.floor(len(rets), 1, "returns of simple_typing")
+    for r in rets:
+        rn = cfg.node_of(r)
+        site = f"simple_typing: `{norm(r)[:60]}`"
+        if call_node is not None and rn is not None and cfg.dominates(call_node.id, rn.id):
+            deps = flow.depends(r.value, rn.id)
+            tainted = _unfold_tainted(f, "sid_to_dicts")
+            if any(a.kind == "call" and a.text.split(".")[-1] == "sid_to_dicts" for a in deps) or (
+                    {x.id for x in ast.walk(r.value) if isinstance(x, ast.Name)} & tainted):
+                res.ok(site, "built from sid_to_dicts (all matching templates)")
+            else:
+                res.violation([f.qualname, norm(r), "ignores the matches"], f"simple_typing: `{norm(r)}` does not depend on the sid_to_dicts result",
+                              f.relpath, r.lineno, site=site)
+            continue
+        # a return before the matching: only when the root of the search cannot be typed
+        untyped_root = False
+        for e, truth in fact_nodes_at(ctx, f, r):
+            if truth:
+                continue
+            d = flow.depends(e, rn.id if rn else None)
+            if any(a.kind == "attr" and a.text.split(".")[-1] in ("basetype", "type") for a in d) or any(
+                    isinstance(x, ast.Attribute) and x.attr in ("basetype", "type") for x in ast.walk(inline_locals(f, e, r))):
+                untyped_root = True
+        if untyped_root:
+            res.ok(site, "the root of the search cannot be typed: the string is returned as it is")
+        else:
+            res.violation([f.qualname, norm(r), "early return"],
+                          f"simple_typing: `{norm(r)}` answers before the templates are matched (and not because the root is untyped): a "
+                          f"string that several templates match is given its first type only", f.relpath, r.lineno, site=site)
+    return res
+
+
+
+def rule_finderroute(ctx: Ctx) -> RuleResult:
+    """the configuration picks the Finder / Getter by the *type* of the search alone: a literal, a '*' and a
+    filtered search of the same type are answered from the same source (C10: the rewrite rules compare such searches;
+    C11 / C12: exists() and find() of one type agree)"""
+    res = RuleResult("R-FINDERROUTE")
+    for q in ("spil_data_conf.get_finder_for", "spil_data_conf.get_getter_for"):
+        f = ctx.p.function(q)
+        sid_p = f.params[0]
+        parents = {}
+        for x in ast.walk(f.node):
+            for ch in ast.iter_child_nodes(x):
+                parents[id(ch)] = x
+        n = 0
+        for x in own_nodes(f.node):
+            if not (isinstance(x, ast.Name) and x.id == sid_p and isinstance(x.ctx, ast.Load)):
+                continue
+            n += 1
+            par = parents.get(id(x))
+            if isinstance(par, ast.Attribute) and par.attr in ("type", "basetype"):
+                res.ok(f"{q}: `{norm(par)}`", "the routing reads the type of the Sid only")
+                continue
+            # diagnostics may show the Sid
+            up = par
+            diag = False
+            while up is not None and not isinstance(up, ast.stmt):
+                if isinstance(up, ast.Call) and (dotted(up.func) or "").split(".")[-1] in ("debug", "info", "warning", "error", "print", "format"):
+                    diag = True
+                if isinstance(up, ast.JoinedStr):
+                    diag = True
+                up = parents.get(id(up))
+            if isinstance(up, ast.Raise) or (diag and isinstance(up, ast.Expr)):
+                res.ok(f"{q}: `{norm(par)[:40]}`", "diagnostic text only", nontrivial=False)
+                continue
+            res.violation([q, norm(par if isinstance(par, (ast.Attribute, ast.Call)) else x), "routing reads more than the type"],
+                          f"{q} looks at `{norm(parents.get(id(par), par) if isinstance(par, ast.Attribute) else par)[:60]}` of the searched "
+                          f"Sid: the source that answers depends on more than the type, so a literal, a '*' and a filtered search of the "
+                          f"same type can be answered from different data", f.relpath, x.lineno)
+        res.floor(n, 1, f"uses of the Sid parameter in {q}")
     return res
